@@ -28,6 +28,7 @@ CATALOGUE = {
     "kb": ({"type": "Text", "length": [[1, 2, False]]}, 2, ["x", "y"], [""]),
     "kc": ({"type": "Integer", "rule": {"items": [[0, 9, False]]}}, 1, ["1", "2"], ["z"]),
     "v": ({"type": "Text", "length": [[1, 1, True]]}, 1, ["p", "q", "r", "s", "t"], [""]),
+    "memo": ({"type": "Text", "length": [[1, 40, False]]}, 32, ["big  red box", "very  fragile, handle with care", "a\tb c"], [""]),
     "num": ({"type": "Integer", "length": [[1, 2, False]]}, 2, ["5", "-5", "77"], ["123", "y"]),
 }
 _TMP = None
